@@ -18,6 +18,8 @@ def run(ctx, res):
         findgen.gen_find(ctx, res, findgen.ALL_FAMILIES, [], "net", False, [97, 98, 10], 3, 16, off, "F-net")
         # the small families whose interactions need a fourth input character (a loop, what follows it, and the rest)
         findgen.gen_find(ctx, res, ["atomseq", "nlend"], [], "net", False, [97, 98, 10], 4, 2, ctx.seed % 2, "F-net-len4")
+        # the end anchors change their meaning under Multiline ($ = end of line): the same small family compiled with m
+        findgen.gen_find(ctx, res, ["nlend"], ["m"], "net", False, [97, 98, 10], 4, 2, (ctx.seed + 1) % 2, "F-m-len4")
         findobs.obs_find(ctx, res, ["-n", "1200", "-stream", "10", "-rtl", "no"], "B-ltr")
     else:
         findgen.gen_find(ctx, res, findgen.ALL_FAMILIES, [], "net", False, [97, 98, 10], 3, 1, 0, "F-net-abn3")
